@@ -1756,7 +1756,10 @@ int ov_pcm_seek(OggVorbis_File *vf,ogg_int64_t pos){
     /* note that halfrate could be set differently in each link, but
        vorbisfile encoforces all links are set or unset */
     int hs=vorbis_synthesis_halfrate_p(vf->vi);
-    while(vf->pcm_offset<((pos>>hs)<<hs)){
+    /* loop on the number of output samples still to discard: comparing
+       against (pos>>hs)<<hs never terminates when the position is odd
+       (half-rate, odd total length of the preceding links) and one short */
+    while(((pos-vf->pcm_offset)>>hs)>0){
       ogg_int64_t target=(pos-vf->pcm_offset)>>hs;
       long samples=vorbis_synthesis_pcmout(&vf->vd,NULL);
 
